@@ -1226,7 +1226,9 @@ func (s *Store) streamBackupDB(ctx context.Context, name string, remotePos ltx.P
 	}
 
 	// Compact LTX files through a pipe so we can pass it to the backup client.
+	// Closing the read side unblocks the compactor if the client gives up early.
 	pr, pw := io.Pipe()
+	defer func() { _ = pr.Close() }()
 	var pos ltx.Pos
 	go func() {
 		compactor := ltx.NewCompactor(pw, rdrs)
@@ -1267,7 +1269,10 @@ func (s *Store) streamBackupDBSnapshot(ctx context.Context, db *DB) (newPos ltx.
 	v.Store(ltx.Pos{})
 
 	// Run snapshot through a goroutine so we can pipe it to the backup writer.
+	// Closing the read side unblocks the snapshot, which holds the database
+	// locks while it writes, if the client gives up before reading everything.
 	pr, pw := io.Pipe()
+	defer func() { _ = pr.Close() }()
 	go func() {
 		header, trailer, err := db.WriteSnapshotTo(ctx, pw)
 		v.Store(ltx.NewPos(header.MaxTXID, trailer.PostApplyChecksum))
